@@ -191,7 +191,19 @@ def build(P, attrs, name="top", is_async=False, mc=2, built=None, _counter=None,
     fns = share if share is not None else {}
     fname_prefix = "f" if share is not None else name
 
-    def fn_for(fname, setup=False):
+    def fn_for(fname, setup=False, unpack=0):
+        if unpack:
+            # unpack_to declared where the function is decorated (@xn(unpack_to=n)) instead of where it is called
+            if ("u", fname, unpack) not in fns:
+                h = PLAIN[fname]
+
+                def uwrapper(*a, **kw):
+                    if PRE_HOOK is not None:
+                        PRE_HOOK()
+                    return h(*a, **kw)
+                uwrapper.__qualname__ = uwrapper.__name__ = f"{fname_prefix}_{fname}_u{unpack}"
+                fns[("u", fname, unpack)] = xn(uwrapper, unpack_to=unpack, **attrs(f"{fname_prefix}_{fname}_u{unpack}"))
+            return fns[("u", fname, unpack)]
         if setup:
             if ("s", fname) not in fns:
                 g = PLAIN[fname]
@@ -238,9 +250,10 @@ def build(P, attrs, name="top", is_async=False, mc=2, built=None, _counter=None,
                 local[j] = [((j,) + rel, f"{sd.qualname}.{iid}") for rel, iid in sub_local]
             else:
                 if s["kind"] == "call":
-                    if s["unpack"]:
+                    declared = s["unpack"] and s.get("declunpack") and not s.get("setup")
+                    if s["unpack"] and not declared:
                         extra["twz_unpack_to"] = s["unpack"]
-                    v = fn_for(s["fn"], s.get("setup", False))(*pos, **kws, **extra)
+                    v = fn_for(s["fn"], s.get("setup", False), s["unpack"] if declared else 0)(*pos, **kws, **extra)
                 elif s["kind"] == "op":
                     v = (AUG if s.get("aug") else OPS)[s["fn"]](*pos)     # a op= b for some sites
                 else:
